@@ -82,6 +82,52 @@ def facts(core, client, serializers, nameserver, s):
     return out, u
 
 
+MADE_IDS = [("plain", "obj"), ("plain", "Some.Object-1_x"), ("generated", None), ("at_inside", "accounts@eu-west"), ("at_end", "obj@"),
+            ("at_start", "@obj"), ("space_inside", "stock level"), ("space_end", "obj "), ("space_start", " obj"), ("tab", "a\tb"),
+            ("newline", "a\nb"), ("colon", "a:b"), ("slash", "a/b"), ("unicode", "objét-中"), ("dots", "..."), ("percent", "a%40b"),
+            ("brackets", "[::1]"), ("at_colon", "x@host:99"), ("comma", "a,b"), ("empty", "")]
+
+
+def made_uris(core, serializers):
+    """uris a real daemon hands out for object ids of every shape (it may refuse an id; what it hands out must mean that id)"""
+    import Pyro5.api as P
+    out = []
+
+    class Thing(object):
+        pass
+    d = P.Daemon(host="127.0.0.1", port=0)
+    try:
+        for idclass, oid in MADE_IDS:
+            rec = {"kind": "made", "idclass": idclass, "id": repr(oid), "refused": False, "reparse_ok": False, "designates": False, "routes": []}
+            obj = Thing()
+            try:
+                uri = d.register(obj, oid) if oid is not None else d.register(obj)
+            except Exception as x:
+                rec["refused"] = True
+                rec["detail"] = "%s: %s" % (type(x).__name__, str(x)[:80])
+                out.append(rec)
+                continue
+            real_id = obj._pyroId
+            rec["text"] = str(uri)
+            try:
+                back = core.URI(str(uri))
+                rec["reparse_ok"] = True
+                rec["designates"] = back.object == real_id and back.location == d.locationStr and back == uri
+                for name, ser in sorted(serializers.serializers.items()):
+                    try:
+                        got = ser.loads(ser.dumps(uri))
+                        rec["routes"].append({"name": name, "eq": bool(got == uri and got.object == real_id)})
+                    except Exception:
+                        rec["routes"].append({"name": name, "eq": False})
+            except Exception as x:
+                rec["detail"] = "%s: %s" % (type(x).__name__, str(x)[:80])
+            out.append(rec)
+            d.unregister(real_id)
+    finally:
+        d.close()
+    return out
+
+
 def run(ctx):
     from Pyro5 import core, client, serializers, nameserver
     ctx.rule = ("cases = every abstract text of URI.tla (protocol x object shape x location shape x port form; 2048 after dropping impossible "
@@ -158,12 +204,19 @@ def run(ctx):
             traces.append({"kind": "pair", "s": s1, "s2": s2, "eq": bool(a == b), "same": a.object == b.object, "hash_eq": heq})
             npairs += 1
     ctx.evaluations += npairs
+    made = made_uris(core, serializers)
+    ctx.evaluations += len(made)
+    ctx.extra["uris_made_by_a_daemon"] = len(made)
+    ctx.extra["ids_refused_by_the_daemon"] = sum(1 for m in made if m["refused"])
     for i in (5, len(cases), len(traces) - 1):
         ctx.sample(traces[i])
+    traces += made
     verdicts, _ = tlc.validate(ctx, "Trace_URI", traces, cfg="Trace_URI.cfg", batch=8000)
     for tr, v in zip(traces, verdicts):
         if v:
-            if tr["kind"] == "one":
+            if tr["kind"] == "made":
+                ctx.violation("%s [uri made by a daemon, id class=%s]" % (v, tr["idclass"]), tr)
+            elif tr["kind"] == "one":
                 a = tr["abstract"]
                 ctx.violation("%s [proto=%s obj=%s loc=%s port=%s]" % (v, a["proto"], a["obj"], a["loc"], a["port"]), tr)
             else:
